@@ -275,7 +275,7 @@ impl World {
             "insert_before" | "append_child" => {
                 let n = arg("n").unwrap();
                 let rf = arg("ref");
-                let use_append = rf.is_none();
+                let use_append = op == "append_child";
                 let res = guarded(|| {
                     macro_rules! go {
                         ($v:expr) => {
